@@ -201,6 +201,12 @@ def run_case(desc):
         # the hashed value must not alias the caller's data: mutate every nested container in place
         mutate_in_place(caller)
         ids.append(calc_id(dict(job.cached_statepoint))); spell["cached_statepoint"] = ids[-1]
+        # the read-only view signac hands out is itself a valid spelling of the state point
+        try:
+            ids.append(project.open_job(job.cached_statepoint).id)
+        except Exception as e:  # noqa
+            ids.append("open_job(cached_statepoint) raised " + type(e).__name__)
+        spell["open_job(cached_statepoint view)"] = ids[-1]
         job.init()
         names = [n for n in os.listdir(project.workspace)]
         ids.extend(names); spell["dirname"] = names
@@ -264,6 +270,36 @@ def run_case(desc):
         for m, i in list(merged_pairs[:1]):
             merged_pairs.append((m, calc_id(p4.open_job(id=i).statepoint())))
     others = others + merged_pairs
+    # synced-collection spelling that is a LIVE view of a file: the state point's values are taken from a job
+    # document; the document changes afterwards; id, state point and directory must keep describing the
+    # value at open_job
+    if v and all(isinstance(k, str) and k and "." not in k for k in v):
+        with scratch_dir("c01d") as d4:
+            proj4 = signac.init_project(path=d4)
+            owner = proj4.open_job({"zz_owner": 1}).init()
+            try:
+                owner.doc.params = v
+                live = owner.doc.params
+            except Exception:  # noqa: values the document cannot hold (e.g. keys it rejects)
+                live = None
+            if live is not None:
+                wrapped = {"zz_w": live}
+                jw = proj4.open_job(wrapped)
+                target = {"zz_w": v}
+                pairs_live = [(target, jw.id)]
+                # change the document afterwards
+                owner.doc.params = {"zz_changed": True}
+                try:
+                    mutate_in_place(live)
+                except Exception:  # noqa
+                    pass
+                pairs_live.append((target, calc_id(jw.statepoint())))
+                try:
+                    jw.init()
+                    pairs_live.append((target, calc_id(signac.get_project(d4).open_job(id=jw.id).statepoint())))
+                except Exception as e:  # noqa: the implementation's failure is the observation
+                    pairs_live.append((target, "init() raised " + type(e).__name__))
+                others = others + pairs_live
     coq = ("{| c1_val := %s; c1_ftab := %s; c1_ids := %s; c1_file := %s; c1_others := %s |}" % (
         coq_json(v), coq_ftab([v, file_val] + [o for o, _ in others]),
         coq_list([coq_str(i) for i in ids], "str"), coq_json(file_val),
